@@ -225,14 +225,57 @@ func runPipeline(raw json.RawMessage) (interface{}, error) {
 	if l, err := rd.ReadString('\n'); err != nil || strings.TrimSpace(l) != "ready" {
 		return nil, fmt.Errorf("fabio child did not start: %q %v", l, err)
 	}
-	const patience = 10 * time.Second
-	dump := func() (interface{}, error) {
-		if _, err := stdin.Write([]byte("dump\n")); err != nil {
+	// ceilings of the event-based waits below; running into one is a harness error, never a verdict
+	const patience = 30 * time.Second
+	ask := func(cmd string) ([]byte, error) {
+		if _, err := stdin.Write([]byte(cmd + "\n")); err != nil {
 			return nil, err
 		}
 		line, err := rd.ReadBytes('\n')
 		if err != nil {
-			return nil, fmt.Errorf("dump: %v", err)
+			return nil, fmt.Errorf("%s: %v", cmd, err)
+		}
+		return line, nil
+	}
+	// awaitIdle returns once the goroutine of the real watchBackend is parked in its select, i.e. the table
+	// loop has finished processing every event it has received so far.
+	awaitIdle := func() error {
+		deadline := time.Now().Add(patience)
+		pause := 50 * time.Microsecond
+		for {
+			line, err := ask("idle")
+			if err != nil {
+				return err
+			}
+			switch strings.TrimSpace(string(line)) {
+			case "true":
+				return nil
+			case "false":
+			default:
+				return fmt.Errorf("fabio child does not answer 'idle' (%q): /repo lacks the hook of commit 4a841d0", line)
+			}
+			if time.Now().After(deadline) {
+				return errors.New("table loop did not become idle")
+			}
+			time.Sleep(pause)
+			if pause < 5*time.Millisecond {
+				pause *= 2
+			}
+		}
+	}
+	// settle: both watchers have handed over what they computed from the current registry state (reg.quiesce)
+	// and the table loop has processed it (awaitIdle). The table read after settle is the table of a
+	// well-defined point of the history.
+	settle := func(what string) error {
+		if !reg.quiesce(patience) {
+			return errors.New("watchers did not pick up " + what)
+		}
+		return awaitIdle()
+	}
+	dump := func() (interface{}, error) {
+		line, err := ask("dump")
+		if err != nil {
+			return nil, err
 		}
 		var table interface{}
 		if err := json.Unmarshal(line, &table); err != nil {
@@ -246,8 +289,8 @@ func runPipeline(raw json.RawMessage) (interface{}, error) {
 	obs := []pipeObs{}
 	for _, o := range in.Ops {
 		if o.Op == "sync" {
-			if !reg.quiesce(patience) {
-				return nil, errors.New("watchers did not pick up the state (sync)")
+			if err := settle("the state (sync)"); err != nil {
+				return nil, err
 			}
 			if len(obs) < 8 {
 				table, err := dump()
@@ -264,8 +307,8 @@ func runPipeline(raw json.RawMessage) (interface{}, error) {
 	// the faults stop; the final state is delivered; if the configuration delivered last was built while a
 	// catalog lookup failed, one more health change (index only) makes the monitor look again
 	reg.stopFaults()
-	if !reg.quiesce(patience) {
-		return nil, errors.New("watchers did not pick up the final state")
+	if err := settle("the final state"); err != nil {
+		return nil, err
 	}
 	if !reg.lastRoundClean() {
 		table, err := dump()
@@ -277,8 +320,8 @@ func runPipeline(raw json.RawMessage) (interface{}, error) {
 			obs = append(obs, pipeObs{Table: table, Registry: snap, Oracle: oracleFor(snap, in.Cfg.Prefix)})
 		}
 		reg.touchHealth()
-		if !reg.quiesce(patience) {
-			return nil, errors.New("watchers did not pick up the final state after the faults stopped")
+		if err := settle("the final state after the faults stopped"); err != nil {
+			return nil, err
 		}
 	}
 	table, err := dump()
